@@ -250,7 +250,19 @@ impl Monitor for C14 {
                 }
                 json!({"kind": "mutate", "text": words.join(" ")})
             }
-            7 => json!({"kind": "prefix", "text": valid_statement(rng)}),
+            7 => if rng.chance(2, 3) { json!({"kind": "prefix", "text": valid_statement(rng)}) } else {
+                // a statement cut off after some token, spread over several lines, ending in blanks / an indented comment /
+                // a line break: the error is reported at the end of the input and must still lie inside the text
+                let words = split_words(&valid_statement(rng));
+                let keep = 1 + rng.below(words.len().max(1));
+                let mut text = String::new();
+                for (i, w) in words.iter().take(keep).enumerate() {
+                    if i > 0 { text.push_str(*rng.pick(&[" ", " ", " ", "\n", "\n    ", "\r\n", " -- c\n", "\t"])); }
+                    text.push_str(w);
+                }
+                text.push_str(*rng.pick(&["", "\n", "\n          -- the rest is missing", "   -- c", "\n\t\t", "\n\n\n", " \n                              ", "\n--", "\r\n   \r\n"]));
+                json!({"kind": "truncated-layout", "text": text})
+            },
             8 => if rng.chance(1, 2) { json!({"kind": "valid", "text": valid_statement(rng)}) } else {
                 // aggregate calls where an operand stands - inside CASE branches, IN lists, function arguments, array literals,
                 // WHERE, GROUP BY keys, nested in another aggregate: valid or an error, never a crash of the lowering
